@@ -304,6 +304,8 @@ func c16Run(out *verifkit.Out, p *c16Params) {
 	}
 	out.T(scLine, "ok")
 
+	stopWatch := out.Watchdog(150*time.Second, p.String())
+	defer stopWatch()
 	var (
 		runErr    error
 		scanRet   int64
@@ -667,7 +669,7 @@ func TestVerifC16(t *testing.T) {
 	out := verifkit.Open()
 	defer out.Close()
 	r := verifkit.NewRand(verifkit.Seed())
-	n := verifkit.N(60, 2000)
+	n := verifkit.N(300, 2500)
 	// fixed boundary scenarios first
 	fixed := []*c16Params{
 		{id: "b0", target: -1, size0: 0, batch: 1, par: 1, nMatch: 1, seed: 1},
